@@ -464,7 +464,22 @@ func (c *Ctx) ruleSitesCTOR() {
 				}
 				return P.RootsAllDeep(x, func(r ssa.Value) bool { return P.CallTo(r, "go/types.Unalias") != nil })
 			})
-			c.require(si, rule, "NOT-POINTER(-)", ptr, "pointer-typed variables must not be reported (skip on un-aliased *types.Pointer missing)")
+			if len(ptr) == 0 {
+				// equivalent: the *types.Named assertion is made on the un-aliased declared type WITHOUT stripping a
+				// pointer, so pointer-typed variables fail the assertion and are skipped
+				noStrip := si.take("not-pointer-implicit", func(l Lit) bool {
+					x, t, _ := typeAssertOK(l)
+					if x == nil || !l.Pos || typeStr(t) != "*go/types.Named" {
+						return false
+					}
+					return P.RootsAllDeep(x, func(r ssa.Value) bool {
+						call := P.CallTo(r, "go/types.Unalias")
+						return call != nil && !P.RootsAny(call.Call.Args[0], func(a ssa.Value) bool { return P.CallTo(a, "(*go/types.Pointer).Elem") != nil })
+					})
+				})
+				ptr = noStrip
+			}
+			c.require(si, rule, "NOT-POINTER(-)", ptr, "pointer-typed variables must not be reported (neither a skip on un-aliased *types.Pointer nor a Named assertion on the unstripped type)")
 			// the variable's type is taken from the declared name
 		default:
 			c.fail(rule+"/SITE-CODE", si.Name, P.Pos(s.Alloc.Pos()), "constructor report site with unexpected code "+s.Code)
